@@ -849,6 +849,8 @@ func (c *clientTask) RunEvent(time.Time) {
 		if e.OptSize > 0 && dconn != nil && e.Size <= 60000 {
 			// (larger requests need two padding records: a third additional record would be refused by the accept policy)
 			m.SetEdns0(uint16(e.OptSize), false)
+			// with an option whose value is an octet string (a decoder is tempted to leave it pointing into its input)
+			m.IsEdns0().Option = append(m.IsEdns0().Option, &dns.EDNS0_LOCAL{Code: 65001, Data: []byte("opt-" + ex.token + "-0123456789abcdef0123456789")})
 		} else {
 			e.OptSize = 0
 		}
